@@ -2,6 +2,8 @@ mod client_core;
 mod client_props;
 mod driver;
 mod explore;
+mod fault;
+mod limits_key;
 mod mock;
 mod server_core;
 mod server_props;
@@ -106,13 +108,25 @@ fn main() {
         }
     }
     mock::install_quiet_panic_hook();
-    let code = run(&prop, tier, replay);
+    let code = match std::panic::catch_unwind(|| run(&prop, tier, replay)) {
+        Ok(c) => c,
+        Err(_) => {
+            eprintln!("machinery: the checker itself panicked: {}", mock::take_panic());
+            2
+        }
+    };
     std::process::exit(code);
 }
 
 fn run(prop: &str, tier: Tier, replay: Option<String>) -> i32 {
     if let Some(p) = replay {
         return do_replay(prop, &p);
+    }
+    if prop == "C09" {
+        return fault::run_c09(tier);
+    }
+    if prop == "C13" {
+        return limits_key::run_c13(tier);
     }
     let parts = parts_for(prop, tier);
     if !parts.is_empty() {
@@ -147,6 +161,12 @@ fn do_replay(prop: &str, path: &str) -> i32 {
         return 2;
     };
     let doc: serde_json::Value = serde_json::from_str(&s).expect("replay file parses");
+    if prop == "C09" {
+        return fault::replay_c09(&doc, path);
+    }
+    if prop == "C13" {
+        return limits_key::replay_c13(&doc, path);
+    }
     let choices: Vec<u16> = doc["choices"]
         .as_array()
         .unwrap()
